@@ -373,11 +373,21 @@ func (e *Env) encodeRules(l *facts.Level) {
 	}
 	// String() = first result of own Encode()
 	if s := l.Method("String"); s != nil {
-		ls, err := ir.Leaves(e.P.SSAFunc(s), ir.LeafOptions{})
-		ok := err == nil && len(ls) == 1 && len(ls[0].Ret) == 1
-		if ok {
-			r := ls[0].Ret[0]
-			ok = r.Op == ir.OExtract && r.N == 0 && r.Args[0].Key() == ir.Call(enc, ir.Param(0)).Key()
+		ls, err := ir.Leaves(e.P.SSAFunc(s), ir.LeafOptions{Inline: e.inlineHelpers()})
+		ok := err == nil && len(ls) >= 1
+		for _, lf := range ls {
+			if !ok || len(lf.Ret) != 1 {
+				ok = false
+				break
+			}
+			r := lf.Ret[0]
+			switch {
+			case r.Op == ir.OExtract && r.N == 0 && r.Args[0].Key() == ir.Call(enc, ir.Param(0)).Key():
+			case isStringConst(r, "") && hasGuard(lf, ir.Bin("==", ir.Param(0), nilOf(l.Ptr()))):
+				// "" for a nil receiver: what Encode returns for it (rule encode-nil)
+			default:
+				ok = false
+			}
 		}
 		c.Check(ok, "string-is-encode", fname(s), e.P.Pos(s.Pos()), "returns the first result of the own-level Encode()", "String() is not the text of the own-level Encode()")
 	} else {
